@@ -1,9 +1,9 @@
 import argparse, fcntl, hashlib, json, os, re, resource, shutil, subprocess, sys, time
 
-V = "/verif"
+V = os.environ.get("VERIF_HOME", "/verif")     # a copy of /verif can be checked in place (long sweeps beside ongoing work)
 B = os.path.join(V, ".build")
 LEAN = os.path.join(V, "lean")
-REPO = "/repo"
+REPO = os.environ.get("VERIF_REPO", "/repo")   # the registered commands always use /repo itself
 GOENV = dict(os.environ, GOFLAGS="-mod=mod", GOPROXY="off", GOSUMDB="off", GOTOOLCHAIN="local",
              CGO_ENABLED="0")
 ALLOWED_AXIOMS = {"propext", "Classical.choice", "Quot.sound"}
